@@ -75,5 +75,46 @@ pub fn c09_case_spellings(ctx: &mut Ctx, env: &Env, acc: &mut Acc) {
             }
         }
     }
-    ctx.alphabets.push(json!({"name": "case-spellings", "description": "ticker AB1C in all 8 case spellings on each of 3 lines (512 combinations), DSL text and JSON input", "states": 1024}));
+    // JSON admits tickers the DSL grammar cannot spell: letters outside ASCII have cases too
+    for (upper, variants) in [("ÖBB", vec!["ÖBB", "öbb", "Öbb", "öBB"]), ("СБЕР", vec!["СБЕР", "сбер", "Сбер", "сбЕР"])] {
+        let ref_txs = serde_json::from_str::<Vec<Transaction>>(&json_in(upper, upper, upper)).ok();
+        let ref_rep = ref_txs.as_ref().and_then(|t| match env.calc(t) {
+            Outcome::Report(r) => Some(view::view(&r)),
+            _ => None,
+        });
+        for a in &variants {
+            for b in &variants {
+                for c in &variants {
+                    let j = json_in(a, b, c);
+                    acc.states += 1;
+                    acc.validated += 1;
+                    acc.bump("case-spellings-compared");
+                    acc.bump("case-spellings:non-ascii-json");
+                    let mut problems = vec![];
+                    match serde_json::from_str::<Vec<Transaction>>(&j) {
+                        Err(e) => problems.push(format!("mixed-case ticker rejected: {e}")),
+                        Ok(txs) => {
+                            if Some(&txs) != ref_txs.as_ref() {
+                                problems.push(format!("parsed transactions differ from the upper-case spelling: tickers {:?}", txs.iter().map(|t| t.ticker.clone()).collect::<Vec<_>>()));
+                            }
+                            match (env.calc(&txs), &ref_rep) {
+                                (Outcome::Report(r), Some(rr)) => {
+                                    for d in view::diff_reports(&view::view(&r), rr, Level::L3, &CmpOpts::default()) {
+                                        problems.push(format!("report differs: {}", d.detail));
+                                    }
+                                }
+                                (Outcome::Report(_), None) => {}
+                                (Outcome::Err { msg, .. }, _) => problems.push(format!("mixed-case ledger refused: {msg}")),
+                                (Outcome::Panic(m), _) => problems.push(format!("panic: {m}")),
+                            }
+                        }
+                    }
+                    for p in problems {
+                        acc.violation(&ctx.findings, "C09", Violation { clause: "ticker-case".into(), input: Input::Text(j.clone()), detail: p, context: json!({"format": "json", "ticker": upper}) });
+                    }
+                }
+            }
+        }
+    }
+    ctx.alphabets.push(json!({"name": "case-spellings", "description": "ticker AB1C in all 8 case spellings on each of 3 lines (512 combinations), DSL text and JSON input; tickers ÖBB and СБЕР in 4 spellings on each of 3 lines, JSON input", "states": 1152}));
 }
